@@ -200,11 +200,14 @@ func (r *RoundRobin) UpsertServer(u *url.URL, options ...ServerOption) error {
 	}
 
 	if s, _ := r.findServerByURL(u); s != nil {
+		// apply the options to a copy first: a rejected option must leave the server untouched
+		updated := *s
 		for _, o := range options {
-			if err := o(s); err != nil {
+			if err := o(&updated); err != nil {
 				return err
 			}
 		}
+		s.weight = updated.weight
 		r.resetState()
 		return nil
 	}
